@@ -1418,7 +1418,7 @@ class Corr:
         tmpmat = np.empty((Ntrunc, Ntrunc), dtype=object)
         rmat = []
         for t in range(basematrix.T):
-            if self.content[t] is None:
+            if _check_for_none(self, self.content[t]):
                 rmat.append(None)
                 continue
             for i in range(Ntrunc):
@@ -1426,7 +1426,7 @@ class Corr:
                     tmpmat[i][j] = evecs[i].T @ self[t] @ evecs[j]
             rmat.append(np.copy(tmpmat))
 
-        newcontent = [None if (self.content[t] is None) else rmat[t] for t in range(self.T)]
+        newcontent = [None if _check_for_none(self, self.content[t]) else rmat[t] for t in range(self.T)]
         if Ntrunc == 1:
             newcontent = [None if entry is None else entry[0, 0] for entry in newcontent]
         return Corr(newcontent)
